@@ -175,7 +175,8 @@ where
         // A oneway call gets no reply, whatever the service makes of it.
         let oneway = call.oneway();
         match self.service.handle(call).await {
-            MethodReply::Single(_) | MethodReply::Error(_) if oneway => (),
+            // That includes a reply stream: the connection keeps taking calls.
+            _ if oneway => (),
             MethodReply::Single(params) => {
                 let reply = Reply::new(params).set_continues(Some(false));
                 writer.send_reply(&reply).await?
